@@ -29,6 +29,41 @@ def validate(rows):
     return vlib.tlc_validate_records(SPEC, "GridTrace", "GridTrace.cfg", rows, chunk=1200)
 
 
+def polar_cases():
+# 6. the caller's half of the contract: the box the automatic polarizer declares contains the nodes it stores, whichever node
+# is listed first (elongated cells, the far tip first / last / in the middle, along every axis and direction, two scales)
+    import itertools
+    pcs = []
+    for axis, sign, tip_at, scale in itertools.product(range(3), (1, -1), (0, 1, 3), (1.0, 2.0 ** -20)):
+        base = [[0, 0, 0], [0, 1, 0], [0, 0, 1], [1, 0, 0]]
+        base = [b for b in base if b[axis] == 0][:3]
+        tip = [0.25, 0.25, 0.25]; tip[axis] = 3.0 * sign
+        pts = base[:tip_at] + [tip] + base[tip_at:]
+        pcs.append({"k": len(pcs) + 1, "pts": pts, "scale": scale, "shift": [[0, 0, 0], [40, -25, 10], [-7, 3, 1000]][len(pcs) % 3], "voxel": 0.1})
+    return pcs
+
+
+def polar_stage(chk, work, pcs):
+    pb = vlib.build("m1d0", ["polar_grid_driver"])
+    pcp, pop = os.path.join(work, "pg_cases.ndjson"), os.path.join(work, "pg_obs.ndjson")
+    vlib.write_ndjson(pcp, pcs)
+    rc, out = vlib.run([os.path.join(pb, "polar_grid_driver"), pcp, pop], timeout=600)
+    pobs = vlib.read_ndjson(pop) if os.path.exists(pop) else []
+    if rc != 0 or len(pobs) != len(pcs):
+        chk.violation("crash:polar_grid", "polar_grid_driver terminated with status %d after %d of %d cases\n%s" % (rc, len(pobs), len(pcs), out[-300:]))
+    else:
+        npg, pbad = vlib.tlc_validate_records(SPEC, "PolarGridTrace", "PolarGridTrace.cfg", pobs, chunk=200, par=1, workers=2)
+        chk.cov["traces_validated_against_impl"] += npg
+        chk.cov["polarizer_grid_cases"] = npg
+        if "P_GridNotTrivial" in pbad:
+            raise ModelError("polarizer grid: trivial grid in cases %r" % pbad["P_GridNotTrivial"])
+        for inv in ("P_DeclaredBoxContainsNodes", "P_NodesRetrievable"):
+            for i in pbad.get(inv, [])[:2]:
+                chk.violation("impl:polar_grid:%s:%s" % (inv, json.dumps(pcs[i]["pts"])), "automatic_polarizer::update_grid_dimensions on the cell %s (scale %g, shift %s, voxel 0.1): %s -- a node lies outside the box declared for the grid (%d voxels %s)"
+                              % (json.dumps(pcs[i]["pts"]), pcs[i]["scale"], pcs[i]["shift"], inv, len(pbad[inv]), pobs[i]["nb"]), {"polar": pcs[i]})
+
+
+
 def run(tier, seed, replay=None):
     chk = Check("C20", tier, seed)
     bdir = vlib.build("m1d0", ["grid_driver"])
@@ -62,8 +97,13 @@ def run(tier, seed, replay=None):
                               "unit": unit, "off": off, "phys": name, "exact": False})
     if replay:
         with open(replay) as f:
-            cases = [json.load(f)["case"]["case"]]
-            cases[0]["k"] = 1
+            rc_ = json.load(f)["case"]
+        if "polar" in rc_:
+            pc = dict(rc_["polar"]); pc["k"] = 1
+            polar_stage(chk, work, [pc])
+            return chk.finish()
+        cases = [rc_["case"]]
+        cases[0]["k"] = 1
     if not cases:
         raise ModelError("no states dumped")
     cpath, opath = os.path.join(work, "cases.ndjson"), os.path.join(work, "obs.ndjson")
@@ -134,6 +174,9 @@ def run(tier, seed, replay=None):
         chk.cov["controls_rejected"] += 1
     else:
         raise ModelError("TLC did not refute the pre-fix grid design (vacuous model?)\n" + pres.out[-1500:])
+
+    if not replay:
+        polar_stage(chk, work, polar_cases())
 
     chk.assumptions += ["IEEE-754 doubles; the three epsilon regimes are realised by the embeddings unit=2^-20 (epsilon survives), "
                         "offset +-1024 / 4096 (epsilon absorbed) and a box starting at 0 with integer extent >= 2 (mixed)",
